@@ -144,6 +144,9 @@ func libdefaultsCases() []kvCase {
 	}
 	out = append(out, kvCase{"preferred_preauth_types", "17,16,15", "intlist", func(l *config.LibDefaults) bool { return fmt.Sprint(l.PreferredPreauthTypes) == "[17 16 15]" }})
 	out = append(out, kvCase{"preferred_preauth_types", "2", "intlist", func(l *config.LibDefaults) bool { return fmt.Sprint(l.PreferredPreauthTypes) == "[2]" }})
+	// the form the MIT documentation gives for the default value, and other blank placements around the commas
+	out = append(out, kvCase{"preferred_preauth_types", "17, 16, 15, 14", "intlist", func(l *config.LibDefaults) bool { return fmt.Sprint(l.PreferredPreauthTypes) == "[17 16 15 14]" }})
+	out = append(out, kvCase{"preferred_preauth_types", "17 ,16 , 15", "intlist", func(l *config.LibDefaults) bool { return fmt.Sprint(l.PreferredPreauthTypes) == "[17 16 15]" }})
 	out = append(out, kvCase{"kdc_default_options", "0x40000010", "hex", func(l *config.LibDefaults) bool {
 		return fmt.Sprintf("%x", l.KDCDefaultOptions.Bytes) == "40000010" && l.KDCDefaultOptions.BitLength == 32
 	}})
